@@ -407,7 +407,7 @@ func checkLoadNormalisation(w *World, r *Report) {
 		return
 	}
 	r.Anchor("load function (calls the load mapper in a loop)", FuncName(loadFn))
-	isRunning := w.FuncByName("", "(*PipelineJob).isRunning")
+	isRunning := resolveRoles(w).RunPred
 	runVars := map[string]string{"recv.Start": "startptr", "recv.Completed": "completed", "recv.Canceled": "canceled"}
 	runTable := map[[3]int64]int64{}
 	if isRunning == nil {
